@@ -823,3 +823,8 @@ pub mod test {
         }
     }
 }
+
+#[cfg(kani)]
+mod verif_kani {
+    include!(concat!(env!("IPA_VERIF_DIR"), "/kani/prss.rs"));
+}
